@@ -273,6 +273,9 @@ func (e *Engine) runPath(w *Worker, entry *ssa.Function, prefix []Decision) (st 
 			switch a := r.(type) {
 			case pathAbort:
 				out = pathOutcome{a.kind, a.msg}
+				if a.kind == "UNSUPPORTED" {
+					out.msg += " at " + st.curSite()
+				}
 			case needFork:
 				out = pathOutcome{"UNSUPPORTED", "unmergeable values at symbolic index (" + st.curSite() + ")"}
 			default:
